@@ -891,6 +891,14 @@ class STIXObjectProperty(Property):
 
         parsed_obj = parse(dictified, allow_custom=allow_custom, interoperability=interoperability)
 
+        if 'spec_version' in parsed_obj and self.spec_version == '2.0':
+            # The dictionary was taken for an object of a later spec version
+            # (which then carries a spec_version property).
+            raise ValueError(
+                "Spec version 2.0 bundles don't yet support "
+                "containing objects of a different spec version.",
+            )
+
         if isinstance(parsed_obj, _STIXBase):
             has_custom = parsed_obj.has_custom
         else:
